@@ -11,7 +11,7 @@ package checks
 // +forced, :delete, wildcard, +wildcard, rename, tags wildcard}; options {none,
 // Force, ForceWithLease {tracking fresh / stale / absent, explicit match,
 // explicit stale, lease on another ref}, FollowTags, Prune, Atomic,
-// push-options, Force+Prune}; pairings go-git->go-git (file transport),
+// push-options, Force+Prune, none with a stale tracking ref}; pairings go-git->go-git (file transport),
 // go-git->git (real `git receive-pack`), git->go-git (real `git push
 // --receive-pack="vcheck __serve receive-pack"`).
 //
@@ -100,6 +100,7 @@ var i38Opts = []i38Opt{
 	{Name: "atomic", Atomic: true, Tracking: "fresh"},
 	{Name: "push-option", PushOpt: true, Tracking: "fresh"},
 	{Name: "force+prune", Force: true, Prune: true, Tracking: "fresh"},
+	{Name: "stale-tracking", Tracking: "stale"},
 }
 
 type i38Case struct {
@@ -658,15 +659,27 @@ func runC38(c *fw.Ctx) {
 			dags = append(dags, d)
 		}
 	}
-	bases := make([]*i38Base, len(dags))
-	c.ParDo(len(dags), 0, func(i int) { bases[i] = i38BuildBase(c, i, dags[i], r.home) })
+	// bases are built on first use so that the small DAGs start at once
+	type lazyBase struct {
+		once sync.Once
+		b    *i38Base
+	}
+	lazy := make([]*lazyBase, len(dags))
+	for i := range lazy {
+		lazy[i] = &lazyBase{}
+	}
+	getBase := func(i int) *i38Base {
+		lazy[i].once.Do(func() { lazy[i].b = i38BuildBase(c, i, dags[i], r.home) })
+		return lazy[i].b
+	}
 
-	var cases []i38Case
-	for _, b := range bases {
-		if b == nil {
-			continue
-		}
-		n := len(b.ids)
+	type protoCase struct {
+		bi                  int
+		l, r, name, sp, opt int
+	}
+	var cases []protoCase
+	for bi, d := range dags {
+		n := len(d.Parents)
 		for l := -1; l < n; l++ {
 			for rr := -1; rr < n; rr++ {
 				for name := range i38Names {
@@ -675,7 +688,7 @@ func runC38(c *fw.Ctx) {
 							if name != 0 && !(o.Lease != "" || o.Name == "none") {
 								continue
 							}
-							cases = append(cases, i38Case{b, l, rr, name, sp, op})
+							cases = append(cases, protoCase{bi, l, rr, name, sp, op})
 						}
 					}
 				}
@@ -688,7 +701,18 @@ func runC38(c *fw.Ctx) {
 		if r.expired() {
 			return
 		}
-		k := cases[ci]
+		pc := cases[ci]
+		if f := os.Getenv("C38_CASE"); f != "" {
+			probe := i38Case{&i38Base{name: i36DagName(dags[pc.bi], 0)}, pc.l, pc.r, pc.name, pc.sp, pc.opt}
+			if !strings.Contains(probe.String(), f) {
+				return
+			}
+		}
+		b := getBase(pc.bi)
+		if b == nil {
+			return
+		}
+		k := i38Case{b, pc.l, pc.r, pc.name, pc.sp, pc.opt}
 		o := i38Opts[k.opt]
 		st, ok := i38Setup(k)
 		if !ok {
@@ -711,9 +735,6 @@ func runC38(c *fw.Ctx) {
 		}
 		if p := os.Getenv("C38_PAIR"); p != "" { // debugging aid: one pairing
 			exs = []string{p}
-		}
-		if f := os.Getenv("C38_CASE"); f != "" && !strings.Contains(k.String(), f) {
-			return
 		}
 		for _, pairing := range exs {
 			local, remote := r.prepare(k, st)
